@@ -34,9 +34,20 @@ the LP64 data model, little-endian multi-byte accesses, clang's AST.
 import json, os, re, subprocess, sys, tempfile
 
 sys.path.insert(0, os.path.dirname(os.path.abspath(__file__)))
-from c2lean import INT_TYPES, Unsupported, lit, wrapint, has_side_effect, UNINIT
+from c2lean import INT_TYPES, Unsupported, lit, wrapint, UNINIT
 
 PTR = 64
+
+
+def has_side_effect(n):
+    k = n.get('kind')
+    if k == 'BinaryOperator' and n.get('opcode') == '=':
+        return True
+    if k in ('CompoundAssignOperator', 'CallExpr', 'AtomicExpr'):
+        return True
+    if k == 'UnaryOperator' and n.get('opcode') in ('++', '--'):
+        return True
+    return any(has_side_effect(c) for c in n.get('inner', []) if isinstance(c, dict))
 
 
 class T:
